@@ -1118,24 +1118,32 @@ class C04(PropertyCheck):
         "QipVerif.C04.if_measure_counterexample",
     ]
     level_text = ("Lean 4 theorems: every qelib1.inc gate that the importer replaces by a library gate equals the standard's "
-                  "expansion to U/CX up to one global phase for all parameters (23 matrix identities over C, 2x2/4x4/8x8); "
-                  "for every program of the class W0 (no user gate definitions; any registers, broadcast, barrier, measure, "
-                  "if-conditioned gates) that the standard accepts, a statement-level model of the importer (tables regenerated "
-                  "from the source) returns exactly the library gates of the standard's flat operations (refinement by "
-                  "induction over the statements), and these gates have, segment by segment (same condition bits/value, same "
-                  "measurements), the unitary of the standard's full expansion to U/CX on the N-qubit register up to one phase "
-                  "(import_den_partial, on the central embedding algebra; one global phase for programs without conditions and "
-                  "measurements); the model provably rejects undeclared "
-                  "gates and registers, out-of-range indices and wrong arities, and is proved to deviate from the standard for "
-                  "if-statements on registers of several bits (counter-examples). The model is tied to the code by a "
-                  "correspondence on programs generated from the grammar and their malformed variants; the standard's "
-                  "semantics in Lean is cross-checked against an independent Python front end on every run.")
+                  "expansion to U/CX up to one global phase for all parameters (23 matrix identities over C); for every program "
+                  "of the class W0 (no user definitions) and of the class W1 (declarations, gate definitions the standard accepts "
+                  "with any nesting, then operations incl. broadcast calls of the defined gates and if-conditioned gates) that the "
+                  "standard accepts, a model of the importer that follows the checkout (tables and repair flags regenerated from "
+                  "the source) returns exactly the library gates / one user gate per call of the standard's flat operations "
+                  "(refinement by induction over statements, incl. the cache of user-gate expansions, whose keys are injective "
+                  "because parser o lexer o render = id on well-formed expressions), and these operations have, segment by "
+                  "segment (same condition bits/value, same measurements), the unitary of the standard's full expansion to U/CX "
+                  "on the N-qubit register up to one phase; on the repaired tree the simulator's test of an imported condition "
+                  "is the standard's condition for registers of every width (cond_bits) and a never-true condition adds nothing; "
+                  "the line tokenizer is modelled in Lean and proved to produce the expected token lists on every rendered "
+                  "program of its class; the model provably rejects undeclared gates / registers, bad indices, wrong arities, bad "
+                  "barrier operands and malformed body statements (repaired tree), and the unrepaired behaviours are proved as "
+                  "variant-conditional counter-examples. Model and code are tied by an exact correspondence on generated, "
+                  "exhaustive-shape, malformed and re-laid-out texts on every run; the standard's semantics in Lean is "
+                  "cross-checked against an independent Python front end.")
     level_note = ("Trusted: Lean kernel; the OpenQASM 2.0 grammar/semantics and qelib1.inc as transcribed in "
-                  "Model/QasmSpec.lean; Python eval on arithmetic expressions; the tokenizer of qasm.py (covered by the "
-                  "correspondence only); the documented gate matrices restated in Lemmas/QasmDen.lean; the harness.")
-    technique = ("Lean 4 proof (statement-level model of the importer, OpenQASM 2.0 expansion semantics in Lean, matrix "
-                 "identities over C for the qelib1 shortcuts) + regenerated tables + model/implementation correspondence on "
-                 "generated programs")
+                  "Model/QasmSpec.lean; Python eval on arithmetic expressions; the hand-written statement-level model of the "
+                  "passes of qasm.py (pinned to the source statement by statement by the translator, compared with the code on "
+                  "every run) incl. how the passes consume the token lists; the documented gate matrices restated in "
+                  "Lemmas/QasmDen.lean; the simulator's reading of classical controls (C02); the harness. "
+                  "if(c==k) measure is refused on every tree (recorded finding: the IR has no conditioned measurement).")
+    technique = ("Lean 4 proof (model of tokenizer and importer passes following the tree, OpenQASM 2.0 expansion semantics in "
+                 "Lean, matrix identities over C for the qelib1 shortcuts, refinement and segment-wise unitary for whole programs "
+                 "with user definitions) + regenerated tables and variant flags + exact model/implementation correspondence on "
+                 "generated programs and texts")
     trusted_base = [
         "Lean 4.33 kernel; axioms propext, Classical.choice, Quot.sound",
         "OpenQASM 2.0 semantics as written in Model/QasmSpec.lean from the language paper (U = Rz(phi)Ry(theta)Rz(lambda), "
@@ -1143,11 +1151,16 @@ class C04(PropertyCheck):
         "props/qasm_std.py",
         "Python eval on the expression grammar (numbers, pi, + - * /, parentheses) = real arithmetic; substitution of "
         "parenthesised values for whole identifiers = substitution of expression trees",
-        "the line tokenizer of qasm.py is not modelled: it is tied to the model by the correspondence on rendered programs",
-        "py/props/qasm_tables.py (AST extraction), py/props/c04.py (harness, exception classes mapped to a small enum)",
+        "Model/QasmImport.lean and Model/QasmTok.lean are hand-written models of qasm.py: the translator pins the modelled "
+        "statements of _final_pass / _regs_processor / _gate_add / _initialize_pass / _check_body_call to their exact source "
+        "and the correspondence compares model and code (verdict, every gate field, user-gate expansions, token lists) on "
+        "every run; how the later passes parse the token lists is covered by that correspondence only",
+        "py/props/qasm_tables.py (AST extraction), py/props/c04.py, py/props/qasm_tok.py (harness, exception classes mapped "
+        "to a small enum)",
     ]
     assumptions = ["documented matrices of the library gates as restated in Lemmas/QasmDen.lean (C09 proves them for the code)",
-                   "meaning of classical_controls / classical_control_value in the simulator: first listed bit most significant (C02)"]
+                   "meaning of classical_controls / classical_control_value in the simulator: first listed bit most significant, "
+                   "restated as simFires (C02)"]
     rule = ("case = program (AST rendered one statement per line: registers, gate definitions, statements with their "
             "expressions and arguments) or one of its malformed variants; distinct by rendered text; non-trivial = at least "
             "one gate statement with a parameter, a whole-register argument, a user gate or a condition, or a rejection")
